@@ -787,10 +787,10 @@ def where_of(exc):
 
 
 def check_of(exc, stub):
-    """signature field 'check', derived from the failure (not from the generator): 'fault' if an
-    injected repository error preceded it, 'pragma' if it arose inside a compiler directive,
-    else 'deviation'"""
-    if stub is not None and stub.injected is not None:
+    """signature field 'check', derived from the failure (not from the generator): 'fault' if the
+    injected repository error is the exception or in its context chain, 'pragma' if it arose
+    inside a compiler directive, else 'deviation'"""
+    if exc is not None and caused_by_fault(exc, stub):
         return 'fault'
     if exc is not None and any(f in PRAGMA_FRAMES for f in pywbem_frames(exc.__traceback__)):
         return 'pragma'
@@ -798,22 +798,34 @@ def check_of(exc, stub):
 
 
 def stub_operation(exc):
-    """name of the StubRepo operation that raised exc (innermost traceback frame), else None"""
+    """name of the StubRepo operation that raised exc (public method nearest to the raise), else
+    None"""
+    me = os.path.abspath(__file__)
     tb = exc.__traceback__
-    last = None
+    ops = []
     while tb is not None:
-        last = tb
+        code = tb.tb_frame.f_code
+        qn = getattr(code, 'co_qualname', code.co_name)
+        if os.path.abspath(code.co_filename) == me and qn.startswith('StubRepo.'):
+            ops.append(code.co_name)
+        else:
+            ops = []        # only a trailing run of stub frames counts
         tb = tb.tb_next
-    if last is None:
-        return None
-    code = last.tb_frame.f_code
-    if os.path.abspath(code.co_filename) != os.path.abspath(__file__.replace('.pyc', '.py')):
-        return None
-    qn = getattr(code, 'co_qualname', code.co_name)
-    if qn == 'StubRepo._op':
-        # injected fault: the operation is the caller of _op
-        return last.tb_frame.f_back.f_code.co_name if last.tb_frame.f_back else None
-    return qn.split('.', 1)[1] if qn.startswith('StubRepo.') else None
+    public = [o for o in ops if not o.startswith('_')]
+    return public[-1] if public else None
+
+
+def caused_by_fault(exc, stub):
+    """the injected repository error is exc itself or is in its cause / context chain"""
+    if stub is None or stub.injected is None:
+        return False
+    seen = 0
+    while exc is not None and seen < 50:
+        if exc is stub.injected:
+            return True
+        exc = exc.__cause__ or exc.__context__
+        seen += 1
+    return False
 
 
 def scrub(text):
